@@ -53,7 +53,7 @@ def main(names):
                 ok = p.returncode == 0 and not viol
             print('SELFTEST %-40s %s  (expect %s, exit %d, %d VIOLATION lines)%s' % (
                 name, 'ok' if ok else 'MISMATCH', spec['expect'], p.returncode, len(viol),
-                '' if ok else '\n' + '\n'.join(out.split('\n')[-15:])))
+                '' if ok else '\n' + '\n'.join(out.split('\n')[-15:])), flush=True)
             if not ok:
                 bad += 1
     finally:
